@@ -164,7 +164,7 @@ class Intrinsics:
     def cell_content(self, st, ref):
         return st.sel("Cell", addr_of(ref.term))
 
-    def cell_write(self, st, ref, new, opname, viewnew, args):
+    def cell_write(self, st, ref, new, opname, viewnew, args, vals=None):
         d = addr_of(ref.term)
         st.upd("Cell", d, new)
         owner = ref.meta.get("owner")
@@ -187,9 +187,9 @@ class Intrinsics:
                     od = addr_of(dv.term)
                     an = z3.IntVal(a)
                     st.upd("View", an, z3.If(od == d, viewnew, st.sel("View", an)))
-            st.event("cell-write", owner.addr, opname, oldview, viewnew, tuple(args))
+            st.event("cell-write", owner.addr, opname, oldview, viewnew, tuple(args), tuple(vals or ()))
         else:
-            st.event("cell-write", None, opname, None, None, tuple(args))
+            st.event("cell-write", None, opname, None, None, tuple(args), tuple(vals or ()))
         for h in self.eng.hooks:
             h("cell-write", st, ref=ref, op=opname, owner=owner)
 
@@ -247,11 +247,11 @@ class Intrinsics:
                     cur.assume(r >= 0)
                 res = Iv(r)
             else:
-                res = Z(r, None, {"item_of": owner, "op": opname})
+                res = Z(r, None, {"item_of": owner, "op": opname, "cellkind": kind, "cell_content": c})
         if "new" in spec:
             new = spec["new"](c, a)
             viewnew = spec["new"](view, va) if owner is not None else None
-            self.cell_write(cur, ref, new, opname, viewnew, a)
+            self.cell_write(cur, ref, new, opname, viewnew, a, args)
         else:
             cur.event("cell-read", owner.addr if owner else None, opname)
             for h in self.eng.hooks:
@@ -292,8 +292,13 @@ class Intrinsics:
         """Subscript of a plain (value-semantic) argument such as data[i], data[len(self):], blob['data']."""
         self.eng.note("[SPEC-BUILTIN]")
         kt = to_val(key)
-        r = F("plain_getitem", Val, Val, Val)(obj.term, kt)
-        return [(st, Z(r, None, {"from": obj}))]
+        from contracts.core import is_mapping
+        if isinstance(key, Iv) or (isinstance(key, Const) and isinstance(key.v, int)):
+            from .loops import seq_at
+            r = seq_at(obj.term, as_int(key))
+        else:
+            r = z3.If(is_mapping(obj.term), dict_get(obj.term, kt), F("plain_getitem", Val, Val, Val)(obj.term, kt))
+        return [(st, Z(r, None, {"from": obj, "plain": obj.meta.get("plain", False)}))]
 
     def setitem(self, st, obj, key, val):
         k = self.kind_of(obj)
@@ -979,6 +984,12 @@ class Intrinsics:
                 x.assume(smt.or_([e.cls_term == z3.IntVal(smt.tid_of(n)) for n in (TE, VE)]))
                 outs.append((x, Raise(e)))
         return outs
+
+    def b_range(self, eng, st, fn, args, kwargs):
+        if len(args) != 1:
+            raise Unsupported("range with several arguments")
+        n = as_int(args[0])
+        return [(st, Z(F("range_obj", IntS, Val)(n), None, {"range": n, "plain": True}))]
 
     def b_min(self, eng, st, fn, args, kwargs):
         a, b = as_int(args[0]), as_int(args[1])
